@@ -59,7 +59,7 @@ theorem resVal_typed {ds : Decls} {env : Env} (henv : EnvTyped ds env) {R : List
     obtain ⟨v, hv, hty⟩ := hacc a r' h1 h2
     rw [h3] at hty
     obtain ⟨s, rfl⟩ := val_asset hty
-    exact ⟨_, by simp [resVal, hv], rfl⟩
+    exact ⟨.monetary s (some amt), by simp [resVal, hv], rfl⟩
 
 theorem resolveRes_exists {ds : Decls} {env : Env} (henv : EnvTyped ds env) {R : List Res} (hR : ResInv ds R) :
     (suf pre : List Res) → R = pre ++ suf → (acc : List Value) → acc.length = pre.length →
@@ -225,8 +225,9 @@ theorem cExpr_res (ds : Decls) :
             · rename_i a cs2 hal
               cases h
               obtain ⟨e2, hres, _⟩ := allocRes_ok hal
-              refine ⟨by rw [pushIf_res]; exact allocRes_res hal ih.inv
-                  ⟨(List.getElem?_eq_some_iff.mp hr').1, r', hr', hrt⟩, rfl,
+              have hinv2 : ResInv ds cs2.res :=
+                allocRes_res hal ih.inv ⟨(List.getElem?_eq_some_iff.mp hr').1, r', hr', hrt⟩
+              refine ⟨by rw [pushIf_res]; exact hinv2, rfl,
                 Ext.comp (Ext.comp ih.ext ⟨_, e2⟩) (pushIf_ext' push a cs2), ?_⟩
               intro a' ha'; cases ha'
               exact ⟨_, by rw [pushIf_res]; exact hres, rfl⟩
